@@ -89,6 +89,10 @@ class HidDevice:
         self.on_attempt = None        # callback(t_us, ok)
         self.on_detect = None         # callback(t_us)
         self.on_back = None           # callback(t_us)
+        self.stalls = []              # [start_us, dur_us]: the host does not get round to reading (loop blocked,
+        #                               process descheduled); reports pile up in the hidraw buffer until the end
+        self._fired_iter = -1         # loop iteration in which the reader was last called
+        self._refire_pending = False
 
     # ---- presence ------------------------------------------------------
     def lose(self, mode="eof", return_after_us=None):
@@ -199,7 +203,16 @@ class HidDevice:
 
     # ---- report delivery ---------------------------------------------------
     def deliver(self, data, at_us):
-        t = max(at_us * US, self._last_deliver + US, self.loop.time())
+        stalled = False
+        for s0, dur in self.stalls:
+            if s0 <= at_us < s0 + dur:
+                at_us, stalled = s0 + dur, True
+        if stalled:
+            # a burst: everything that piled up becomes readable at the same instant
+            t = max(at_us * US, self._last_deliver, self.loop.time())
+            self._bump("host-stall")
+        else:
+            t = max(at_us * US, self._last_deliver + US, self.loop.time())
         self._last_deliver = t
         self.loop.at(t, self._arrive, self.generation, data)
 
@@ -213,12 +226,24 @@ class HidDevice:
         self._refire()
 
     def _refire(self):
+        self._refire_pending = False
         if self.fd is None:
             return
         if self.queue or not self.present:
+            if self._fired_iter == self.loop.iterations:
+                # a selector reports a descriptor once per loop iteration: the next
+                # queued report is read in the next one
+                self._refire_soon()
+                return
+            self._fired_iter = self.loop.iterations
             if self.loop.fire_reader(self.fd):
                 if self.fd is not None and (self.queue or not self.present):
-                    self.loop.call_soon(self._refire)
+                    self._refire_soon()
+
+    def _refire_soon(self):
+        if not self._refire_pending:
+            self._refire_pending = True
+            self.loop.call_soon(self._refire)
 
     def _bump(self, k):
         self.faults_fired[k] = self.faults_fired.get(k, 0) + 1
